@@ -141,7 +141,21 @@ static void case_td(Rng & rng, TD L, int mode, const std::string & tier, const P
         for (size_t s = 0; s < S; ++s) { long am; init.row(s).maxCoeff(&am); pol(s, am) = 1.0; }
     } else if (mode == 2) {
         init = randTable(rng, S, A, 6);
+    } else if (mode == 3) {
+        // learners without a table setter (Hysteretic, SARSA; also QLearning/DynaQ through their update only): a layered
+        // deterministic MDP (every action leads to a later state, the last state is absorbing and pays 0) is solved EXACTLY by one
+        // backward sweep with step size 1; the sweep is part of the sequence, the steps after it are clause-2 steps
+        if (p.ugly) { p.g = 0.5; p.ugly = false; }
+        if (S < 2) S = p.S = 2;
+        next.assign(S, std::vector<size_t>(A));
+        R = randTable(rng, S, A, 3);
+        for (size_t s = 0; s + 1 < S; ++s) for (size_t a = 0; a < A; ++a) next[s][a] = (size_t)rng.range((long)s + 1, (long)S - 1);
+        for (size_t a = 0; a < A; ++a) { next[S - 1][a] = S - 1; R(S - 1, a) = 0.0; }
+        p.alpha = 1.0; p.beta = 1.0;
+        pol = AI::Matrix2D::Constant(S, A, 1.0 / A);
+        init = M::makeQFunction(S, A);
     }
+    const int k0 = mode == 3 ? (int)((S - 1) * A) : 0;
     M::Policy policy(pol);
     M::QFunction ext = init;                       // ExpectedSARSA works on a caller-owned table
     std::unique_ptr<M::QLearning> ql; std::unique_ptr<M::HystereticQLearning> hy; std::unique_ptr<M::SARSA> sa;
@@ -159,7 +173,8 @@ static void case_td(Rng & rng, TD L, int mode, const std::string & tier, const P
     if (L == ESARSA_) putTable(l, pol);
     putTable(l, init);
     if (L == DQ_) { M::QFunction c = init * 2; putTable(l, c); }
-    int n = p.maxSteps;
+    int n = p.maxSteps + k0;
+    if (mode == 3) l << k0;
     l << n;
     ExpGen gen(rng, S, A);
     double alpha = p.alpha, beta = p.beta;
@@ -169,8 +184,14 @@ static void case_td(Rng & rng, TD L, int mode, const std::string & tier, const P
             e.s1 = next[e.s][e.a]; e.r = R(e.s, e.a);
             long am; init.row(e.s1).maxCoeff(&am); e.a1 = (size_t)am;
         }
+        if (mode == 3) {
+            if (k < k0) { e.s = S - 2 - (size_t)k / A; e.a = (size_t)k % A; }      // backward sweep
+            e.s1 = next[e.s][e.a]; e.r = R(e.s, e.a);
+            const M::QFunction & cur = L == HYST_ ? hy->getQFunction() : L == SARSA_ ? sa->getQFunction() : L == QL_ ? ql->getQFunction() : dy->getQFunction();
+            long am; cur.row(e.s1).maxCoeff(&am); e.a1 = (size_t)am;                  // greedy next action (SARSA)
+        }
         // step sizes may be changed between steps through the public setters
-        if (rng.coin(1, 5)) {
+        if (rng.coin(1, 5) && !(mode == 3 && k < k0)) {
             alpha = p.ugly ? pickD(rng, {0.1, 0.3, 1.0, 0.7}) : pickD(rng, {1.0, 0.5, 0.25, 0.125});
             beta = p.ugly ? pickD(rng, {0.0, 0.2, 1.0}) : pickD(rng, {0.0, 0.5, 0.25});
             switch (L) {
@@ -304,6 +325,8 @@ template <class Mod>
 static void run_ps(Rng & rng, const Mod & mod, const M::Model & model, const char * kind, bool stepwise) {
     size_t S = model.getS(), A = model.getA();
     double theta = std::ldexp(1.0, -40);
+    // stepwise runs also use real thresholds: the residual bound gamma*theta*N (theorem ps_residual_bound) is then checked
+    if (stepwise && rng.coin()) theta = pickD(rng, {0.125, 0.5, 1.0, 0.0009765625, 0.03125});
     M::PrioritizedSweeping<Mod> ps(mod, theta, stepwise ? 1 : 64);
     // explicit backups: a random order over all pairs (sometimes with repeats, rarely incomplete)
     std::vector<std::pair<size_t, size_t>> order;
@@ -346,6 +369,7 @@ static void run_ps(Rng & rng, const Mod & mod, const M::Model & model, const cha
     }
     l.emit();
     std::printf("#stat ps-%s%s 1\n", kind, stepwise ? "-stepwise" : "");
+    if (theta > 1e-6) std::printf("#stat ps-positive-threshold 1\n");
 }
 
 static void case_ps(Rng & rng, const std::string & tier, int kind = -1, int stepwise = -1, int tiny = -1) {
@@ -389,27 +413,43 @@ struct DetModel {
     std::tuple<size_t, double> sample(size_t s, size_t a) const { return sampleSR(s, a); }   // the name DynaQ::batchUpdateQ calls
 };
 
-static void case_dynab(Rng & rng, const std::string & tier) {
+static void case_dynab(Rng & rng, const std::string & tier, int starMode = -1) {
     Params p = drawParams(rng, tier, false);
+    bool star = starMode < 0 ? rng.coin(1, 3) : starMode != 0;
+    if (star && p.S < 2) p.S = 2;
+    if (star && p.ugly) { p.g = 0.5; p.ugly = false; }
     DetModel m{p.S, p.A, p.g, {}, randTable(rng, p.S, p.A, 3)};
     m.next.assign(p.S, std::vector<size_t>(p.A));
     for (auto & row : m.next) for (auto & x : row) x = rng.below(p.S);
-    M::DynaQ<DetModel> d(m, p.alpha, 1);
     std::vector<std::pair<size_t, size_t>> vis;
-    int nv = (int)rng.range(1, (long)(p.S * p.A));
-    for (int i = 0; i < nv; ++i) {
-        size_t s = rng.below(p.S), a = rng.below(p.A);
-        d.stepUpdateQ(s, a, m.next[s][a], m.rew(s, a));
-        if (std::find(vis.begin(), vis.end(), std::make_pair(s, a)) == vis.end()) vis.emplace_back(s, a);
+    double alpha = star ? 1.0 : p.alpha;
+    if (star) {
+        // layered deterministic MDP: every action leads to a later state, the last state is absorbing with reward 0;
+        // one backward sweep with step size 1 then leaves the table EXACTLY at Q* (clause 2: the planning batches must keep it)
+        for (size_t s = 0; s + 1 < p.S; ++s) for (size_t a = 0; a < p.A; ++a) m.next[s][a] = (size_t)rng.range((long)s + 1, (long)p.S - 1);
+        for (size_t a = 0; a < p.A; ++a) { m.next[p.S - 1][a] = p.S - 1; m.rew(p.S - 1, a) = 0.0; }
     }
-    Line l; l << "C11" << "dynab" << p.S << p.A << p.g << p.alpha;
+    M::DynaQ<DetModel> d(m, alpha, 1);
+    if (star) {
+        for (size_t s = p.S - 1; s-- > 0; ) for (size_t a = 0; a < p.A; ++a) { d.stepUpdateQ(s, a, m.next[s][a], m.rew(s, a)); vis.emplace_back(s, a); }
+        alpha = pickD(rng, {1.0, 0.5, 0.25, 0.125});
+        d.setLearningRate(alpha);
+    } else {
+        int nv = (int)rng.range(1, (long)(p.S * p.A));
+        for (int i = 0; i < nv; ++i) {
+            size_t s = rng.below(p.S), a = rng.below(p.A);
+            d.stepUpdateQ(s, a, m.next[s][a], m.rew(s, a));
+            if (std::find(vis.begin(), vis.end(), std::make_pair(s, a)) == vis.end()) vis.emplace_back(s, a);
+        }
+    }
+    Line l; l << "C11" << "dynab" << p.S << p.A << p.g << alpha;
     for (auto & row : m.next) for (auto x : row) l << x;
     putTable(l, m.rew); putTable(l, d.getQFunction());
     l << (size_t)vis.size(); for (auto [s, a] : vis) l << s << a;
     int n = std::min(p.maxSteps, 60); l << n;
     for (int k = 0; k < n; ++k) { d.batchUpdateQ(); putTable(l, d.getQFunction()); }
     l.emit();
-    std::printf("#stat dynab 1\n");
+    std::printf("#stat dynab%s 1\n", star ? "-qstar" : "");
 }
 
 // ---------------------------------------------------------------- Dyna2 (two SARSAL learners sharing traces)
@@ -421,12 +461,14 @@ static void case_dyna2(Rng & rng, const std::string & tier) {
     for (auto & row : m.next) for (auto & x : row) x = rng.below(p.S);
     unsigned N = (unsigned)rng.range(1, 4);
     M::Dyna2<DetModel> d(m, p.alpha, p.lam, p.tol, N);
+    double lamT = p.lam;
+    if (rng.coin(1, 3)) { lamT = p.ugly ? pickD(rng, {0.0, 0.9, 0.3}) : pickD(rng, {0.0, 0.25, 0.5, 1.0}); d.setTransientLambda(lamT); }
     // deterministic internal policy so that batchUpdateQ is a function of its argument
     AI::Matrix2D pol = AI::Matrix2D::Zero(p.S, p.A);
     std::vector<size_t> act(p.S);
     for (size_t s = 0; s < p.S; ++s) { act[s] = rng.below(p.A); pol(s, act[s]) = 1.0; }
     d.setInternalPolicy(new M::Policy(pol));
-    Line l; l << "C11" << "dyna2" << p.S << p.A << p.g << p.alpha << p.lam << p.tol << (size_t)N;
+    Line l; l << "C11" << "dyna2" << p.S << p.A << p.g << p.alpha << p.lam << lamT << p.tol << (size_t)N;
     for (auto & row : m.next) for (auto x : row) l << x;
     putTable(l, m.rew);
     for (auto a : act) l << a;
@@ -471,7 +513,8 @@ void verif::verif_case(Rng & rng, long idx, const std::string & tier) {
     else if (k == 12) case_td(rng, QL_, 1, tier);                          // fixed point at Q*
     else if (k == 13) case_td(rng, DQ_, 1, tier);
     else if (k == 14) case_td(rng, ESARSA_, 1, tier);
-    else if (k == 15) case_td(rng, rng.coin() ? QL_ : (rng.coin() ? DQ_ : ESARSA_), 2, tier);   // arbitrary start
+    else if (k == 15 && rng.coin()) case_td(rng, rng.coin() ? QL_ : (rng.coin() ? DQ_ : ESARSA_), 2, tier);   // arbitrary start
+    else if (k == 15) case_td(rng, rng.pick(std::vector<TD>{HYST_, SARSA_, QL_, DYNA_}), 3, tier);         // Q* reached through the updates
     else if (k < 25) case_tr(rng, (TR)(k - 16), tier);
     else if (k < 27) case_tr(rng, (TR)rng.below(9), tier);
     else if (k == 27) case_tr(rng, (TR)rng.below(5), tier, nullptr, true, true);   // control learners / SARSA(lambda) at Q*
